@@ -230,6 +230,16 @@ func rulePoolForeign(r *Run) {
 						}
 					}
 				}
+				// … or the cell's address was handed to the helper (defer putBytes(bp, &b, &s.opts): *bp = *b)
+				if u, ok := st.Val.(*ssa.UnOp); ok && u.Op == token.MUL {
+					if par, ok := u.X.(*ssa.Parameter); ok && p.isTransparent(par.Parent()) {
+						for _, b := range p.bindings(par.Parent()) {
+							if a := b.subst(par); a == ssa.Value(cell) || p.cellRoot(a) == ssa.Value(cell) {
+								back = true
+							}
+						}
+					}
+				}
 			})
 		}
 		if !back {
